@@ -91,6 +91,46 @@ func scanHTMLTokens(s string) []tokPair {
 	return out
 }
 
+// scanHTMLUnits gives, for every token scanHTMLTokens finds in s, the number of the emitted
+// unit it sits in: blocks and list items are separated by newlines, table cells by tabs (text,
+// document projection) or pipes (Markdown).
+func scanHTMLUnits(s string) []int {
+	units := []int{}
+	u := 0
+	for i := 0; i < len(s); i++ {
+		switch s[i] {
+		case '\n', '\t', '|':
+			u++
+			continue
+		}
+		if i+4 <= len(s) && s[i] == 'w' && c19Digit(s[i+1]) && c19Digit(s[i+2]) && c19Digit(s[i+3]) {
+			units = append(units, u)
+			i += 3
+		}
+	}
+	return units
+}
+
+// tokUnit is <<id, form, unit>> (trace events).
+type tokUnit struct {
+	tokPair
+	Unit int
+}
+
+func (t tokUnit) MarshalJSON() ([]byte, error) { return json.Marshal([]interface{}{t.ID, t.Form, t.Unit}) }
+
+func withUnits(toks []tokPair, units []int) []tokUnit {
+	out := make([]tokUnit, len(toks))
+	for i, t := range toks {
+		u := 0
+		if i < len(units) {
+			u = units[i]
+		}
+		out[i] = tokUnit{t, u}
+	}
+	return out
+}
+
 func modelText(doc *model.Document) string {
 	var b strings.Builder
 	if doc == nil {
@@ -133,6 +173,7 @@ type c19Group struct {
 	Out   string      `json:"out"`
 	Modes []string    `json:"modes"`
 	Toks  [][]tokPair `json:"toks"`
+	Units [][]int     `json:"units,omitempty"` // per mode, per token: the emitted unit it came out in
 	Raw   []string    `json:"raw,omitempty"`
 	Err   string      `json:"err,omitempty"`
 }
@@ -163,6 +204,7 @@ func c19Observe(src string, withFile bool, name string) []c19Group {
 				g.Err = e.Error()
 			}
 			g.Toks = append(g.Toks, scanHTMLTokens(s))
+			g.Units = append(g.Units, scanHTMLUnits(s))
 			g.Raw = append(g.Raw, s)
 		}
 		groups = append(groups, g)
@@ -212,6 +254,16 @@ func filterPairs(s []tokPair, keep map[int]bool) []tokPair {
 	for _, t := range s {
 		if keep[t.ID] {
 			out = append(out, t)
+		}
+	}
+	return out
+}
+
+func cleanUnits(toks []tokPair, units []int, keep map[int]bool) []int {
+	out := []int{}
+	for i, t := range toks {
+		if keep[t.ID] && i < len(units) {
+			out = append(out, units[i])
 		}
 	}
 	return out
@@ -376,6 +428,23 @@ func c19CheckGroup(c *c19Case, g c19Group) *c19Fail {
 	for m := 1; m < 4; m++ {
 		if !isSubseq(g.Toks[m], g.Toks[m-1]) {
 			return &c19Fail{"monotone", outTag + g.Modes[m], fmt.Sprintf("Out(%s) = %v is not a subsequence of Out(%s) = %v", g.Modes[m], g.Toks[m], g.Modes[m-1], g.Toks[m-1])}
+		}
+	}
+	// WU: content outside what mode m may exclude keeps its unit structure: two such tokens share
+	// a block / list item / cell in Out(m) iff they do in Out(None)
+	if len(g.Units) == 4 {
+		for m := 1; m < 4; m++ {
+			ua, ub := cleanUnits(g.Toks[m], g.Units[m], clean[m]), cleanUnits(none, g.Units[0], clean[m])
+			ids := filterPairs(none, clean[m])
+			for i := 0; i+1 < len(ua) && i+1 < len(ub); i++ {
+				if (ua[i] == ua[i+1]) != (ub[i] == ub[i+1]) {
+					how := "glued into one unit"
+					if ub[i] == ub[i+1] {
+						how = "split into two units"
+					}
+					return &c19Fail{"unit-structure", outTag + g.Modes[m], fmt.Sprintf("mode %s: w%03d and w%03d (inside %s), both outside every subtree the mode may exclude, are %s; mode none keeps them %s", g.Modes[m], ids[i].ID, ids[i+1].ID, where(ids[i+1].ID), how, map[bool]string{true: "in one unit", false: "in separate units"}[ub[i] == ub[i+1]])}
+				}
+			}
 		}
 	}
 	for m := 0; m < 4; m++ {
